@@ -124,9 +124,11 @@ def native_bitmap_replay(here, fn, wit, log):
     args.append(str(nm))
     for i in range(nm):
         args.append("%#x" % ((wit["m"].get(i) or 0) & (2**64 - 1)))
+    gh = wit.get("ghost") or {}
+    args += ["vary", str(gh.get("g_k") or 0), str(gh.get("g_k2") if gh.get("g_k2") is not None else (gh.get("g_k") or 0))]
     env = dict(os.environ); env["ASAN_OPTIONS"] = "detect_leaks=0"; env["UBSAN_OPTIONS"] = "print_stacktrace=0"
     try:
-        p = subprocess.run([exe] + args, capture_output=True, text=True, timeout=60, env=env)
+        p = subprocess.run([exe] + args, capture_output=True, text=True, timeout=180, env=env)
     except subprocess.TimeoutExpired:
         return True, "native replay did not terminate within 60 s", args
     out = (p.stdout + p.stderr)[-3000:]
@@ -160,7 +162,7 @@ def _compact_trace(trace, limit=60):
     return out[-limit:]
 
 
-def handle_violation(prop, job, r, tier, builddir, log, here):
+def handle_violation(prop, job, r, tier, builddir, log, here, wit_opts=None):
     """r['failed'] is non-empty.  Returns a list of violation items (one per distinct obligation group)."""
     items = []
     seen = set()
@@ -179,7 +181,7 @@ def handle_violation(prop, job, r, tier, builddir, log, here):
                    "replay_family": job.family}
         note = ""
         if job.family == "bitmap" and job.mode == "contract":
-            wit, trace_txt, err = witness_run(job, f["property"], builddir, log)
+            wit, trace_txt, err = witness_run(job, f["property"], builddir, log, wit_opts)
             payload["verifier"]["witness_trace"] = trace_txt
             if wit and wit["b"] is not None and (wit["b"] or r["function"].endswith("alloc") or r["function"].endswith("alloc_full")):
                 item["inputs"] = wit
@@ -213,22 +215,29 @@ def handle_violation(prop, job, r, tier, builddir, log, here):
 REPLAYERS = {}
 
 
-def witness_run(job, prop_name, builddir, log):
+def replay_unwind_extra():
+    # witness mode allows MAXW=32 words but binds <= WITN(4) stored words; realloc fill loops may run up to 32 times
+    return 30
+
+
+def witness_run(job, prop_name, builddir, log, wit_opts=None):
     """Re-run the refuted obligation in witness mode (entry state bound to harness variables, <= WITN words)."""
     import copy
+    wit_opts = wit_opts or {}
     wj = copy.copy(job)
     wj.defines = dict(job.defines); wj.defines["VERIF_WITNESS"] = None
-    wj.name = job.name + ".wit"
+    wj.defines.update(wit_opts.get("defines", {}))
+    wj.name = job.name + ".wit" + wit_opts.get("suffix", "")
     base = os.path.join(builddir, wj.name)
     gb = base + ".gb"
     rc, out, err, secs, to = runner.goto_cc(wj, gb, builddir, WITNESS_MAXW, False)
     if rc != 0:
         return None, None, "witness build failed: " + err[-500:]
     igb = base + ".i.gb"
-    rc, out, err, secs, to = runner.instrument(wj, gb, igb, True)
+    rc, out, err, secs, to = runner.instrument(wj, gb, igb, wit_opts.get("loop_contracts", True) and job.loop_contracts)
     if rc != 0:
         return None, None, "witness instrumentation failed: " + (out + err)[-500:]
-    tr, err = runner.trace_for(wj, igb, prop_name, "sat", min(job.timeout, 600))
+    tr, err = runner.trace_for(wj, igb, prop_name, "sat", min(job.timeout, 600), unwind=wit_opts.get("unwind", job.unwind))
     if tr is None:
         return None, None, err
     wit = extract_witness(tr)
@@ -271,7 +280,9 @@ def proof_lost_fallback(prop, job, r, tier, builddir, log, here):
                          "location": x.get("sourceLocation") or {}} for x in bad]
         r2["_bins"] = {"main": igb}
         fj.unwind = 7
-        out["violations"] = handle_violation(prop, job, r2, tier, builddir, log, here)
+        out["violations"] = handle_violation(prop, job, r2, tier, builddir, log, here,
+                                             wit_opts={"defines": {"VERIF_NO_LOOP_CONTRACTS": None}, "loop_contracts": False,
+                                                       "unwind": 7 + replay_unwind_extra(), "suffix": ".fb"})
         out["summary"] = "bounded fallback (<=4 words, unwind 7) refuted %s" % bad[0].get("property")
     else:
         out["summary"] = "bounded fallback (<=4 words, unwind 7) passed %d obligations%s" % (
